@@ -222,6 +222,7 @@ func runC13(c *Ctx) {
 	r.Floor("provenance", r.Count("provenance"), 60, "functions returning errors")
 	r.Floor("family", r.Count("family"), 40, "builder call sites")
 	r.Floor("chain", r.Count("chain"), 12, "rewrap sites")
+	c13MemoKey(c, p)
 	if c.Controls {
 		if cp := c.Control("c13"); cp != nil {
 			cscope := func(f *ssa.Function) bool {
